@@ -6,6 +6,7 @@ package main
 // prefixes is returned, in database order.
 
 import (
+	"errors"
 	"net"
 	"strings"
 
@@ -47,7 +48,12 @@ type service struct {
 	db     *dbSpec
 	pack   string
 	log    []exch
+	// failNext makes the next exchange fail (one shot); failed records that
+	// an exchange of the current check has failed.
+	failNext, failed bool
 }
+
+var errServiceDown = errors.New("verif: lookup service unreachable")
 
 func (s *service) Address() string { return "verif-service" }
 func (s *service) Close() error    { return nil }
@@ -75,6 +81,10 @@ func (s *service) Exchange(req *dns.Msg) (*dns.Msg, error) {
 	}
 	x.Returned = len(out)
 	s.log = append(s.log, x)
+	if s.failNext {
+		s.failNext, s.failed = false, true
+		return nil, errServiceDown
+	}
 	hdr := func(t uint16) dns.RR_Header {
 		return dns.RR_Header{Name: x.Name, Rrtype: t, Class: dns.ClassINET, Ttl: 300}
 	}
